@@ -1,8 +1,21 @@
 import ArimModel.Probe
+import ArimProofs.Lemmas.Probe
 import Mathlib.Tactic.Ring
-/-! # C16 — probe motions are rigid and keep the probe coordinate system attached -/
+import Mathlib.Tactic.FieldSimp
+import Mathlib.Algebra.CharZero.Defs
+import Mathlib.Algebra.Field.Basic
+import Mathlib.Data.Nat.Cast.Basic
+import Mathlib.Algebra.Field.Rat
+import Mathlib.Algebra.Order.Field.Rat
+import Mathlib.Tactic.NormNum.Basic
+import Mathlib.Tactic.NormNum.Inv
+/-! # C16 — probe motions are rigid and keep the probe coordinate system attached
+
+`K` is a commutative ring throughout (plus an arbitrary `Div K` where the model needs a division:
+the theorems hold whatever the division does, in particular in every field).
+Vector algebra (`Proper`, `GoodCS`, `sqdist`, `cross_mulVec`, …) is in `ArimProofs/Lemmas/Probe.lean`. -/
 namespace Arim.C16
-open Arim Arim.Geo Arim.Probe
+open Arim Arim.Geo Arim.Probe Arim.C17
 
 variable {K : Type} [CommRing K]
 
@@ -17,5 +30,578 @@ theorem translate_locs_pcs (cs : CS K) (p v : P3 K) :
   obtain ⟨ox, oy, oz⟩ := o
   cases p; cases v
   simp [CS.translate, CS.fromGcs, CS.rows, CS.k, vsub, vadd]
+
+/-! ## observations -/
+
+/-- the matrix of pairwise squared distances of a list of points -/
+def pairDists (l : List (P3 K)) : List (List K) := l.map (fun a => l.map (fun b => sqdist a b))
+
+theorem pairDists_length (l : List (P3 K)) : (pairDists l).length = l.length := by
+  simp [pairDists]
+
+/-- entry `(m, n)` of `pairDists` -/
+theorem pairDists_get (l : List (P3 K)) (m n : Nat) (hm : m < l.length) (hn : n < l.length) :
+    (pairDists l)[m]?.bind (·[n]?) = some (sqdist l[m] l[n]) := by
+  simp [pairDists, hm, hn]
+
+/-- equality of the `pairDists` matrices, unfolded: same number of points and the same squared
+    distance for every pair of indices -/
+theorem pairDists_eq_iff (l' l : List (P3 K)) :
+    pairDists l' = pairDists l ↔
+      ∃ h : l'.length = l.length, ∀ m n (hm : m < l.length) (hn : n < l.length),
+        sqdist (l'[m]'(h ▸ hm)) (l'[n]'(h ▸ hn)) = sqdist l[m] l[n] := by
+  constructor
+  · intro h
+    have hl : l'.length = l.length := by
+      have := congrArg List.length h; simpa [pairDists_length] using this
+    refine ⟨hl, fun m n hm hn => ?_⟩
+    have h1 := pairDists_get l' m n (hl ▸ hm) (hl ▸ hn)
+    have h2 := pairDists_get l m n hm hn
+    rw [h] at h1
+    exact Option.some.inj (h1.symm.trans h2)
+  · rintro ⟨hl, h⟩
+    apply List.ext_getElem (by simp [pairDists_length, hl])
+    intro m hm hm'
+    apply List.ext_getElem (by simp [pairDists, hl])
+    intro n hn hn'
+    simp only [pairDists, List.getElem_map, List.length_map] at hn hn' hm hm' ⊢
+    exact h m n hm' hn'
+
+/-- a map that preserves `sqdist` preserves the matrix of pairwise squared distances -/
+theorem pairDists_map (f : P3 K → P3 K) (h : ∀ a b, sqdist (f a) (f b) = sqdist a b)
+    (l : List (P3 K)) : pairDists (l.map f) = pairDists l := by
+  simp [pairDists, List.map_map, Function.comp_def, h]
+
+/-- every normal is a unit vector -/
+def UnitNormals (s : State K) : Prop := ∀ n ∈ s.normals, dot n n = 1
+
+/-! ## translate -/
+
+/-- `translate` keeps all pairwise squared distances of the elements -/
+theorem translate_pairDists (s : State K) (v : P3 K) :
+    pairDists (translate s v).locs = pairDists s.locs :=
+  pairDists_map _ (fun a b => translate_sqdist a b v) _
+
+/-- `translate` keeps the element locations in the PCS -/
+theorem translate_locsPcs (s : State K) (v : P3 K) : locsPcs (translate s v) = locsPcs s := by
+  simp only [locsPcs, translate, List.map_map]
+  apply List.map_congr_left
+  intro p _
+  exact translate_fromGcs s.pcs p v
+
+/-- `translate` keeps the normals, the axes `î, ĵ`, and moves the PCS origin by `v` -/
+theorem translate_normals (s : State K) (v : P3 K) : (translate s v).normals = s.normals := rfl
+theorem translate_axes (s : State K) (v : P3 K) :
+    (translate s v).pcs.i = s.pcs.i ∧ (translate s v).pcs.j = s.pcs.j ∧
+      (translate s v).pcs.origin = vadd s.pcs.origin v := ⟨rfl, rfl, rfl⟩
+theorem translate_normalsPcs (s : State K) (v : P3 K) :
+    normalsPcs 0 (translate s v) = normalsPcs 0 s := rfl
+theorem translate_good (s : State K) (v : P3 K) (g : GoodCS s.pcs) : GoodCS (translate s v).pcs :=
+  ⟨g.ii, g.jj, g.ij⟩
+
+/-! ## rotate -/
+
+/-- `rotate` by a proper rotation about any centre keeps all pairwise squared distances -/
+theorem rotateP_pairDists (s : State K) (r : M3 K) (h : Proper r) (c : Option (P3 K)) :
+    pairDists (rotateP s r c).locs = pairDists s.locs :=
+  pairDists_map _ (fun a b => rotate_sqdist r h.cols c a b) _
+
+/-- the axes of the rotated probe frame are the rotated axes; the origin is the rotated origin -/
+theorem rotateP_axes (s : State K) (r : M3 K) (h : Proper r) (c : Option (P3 K)) :
+    (rotateP s r c).pcs.i = mulVec r s.pcs.i ∧ (rotateP s r c).pcs.j = mulVec r s.pcs.j ∧
+      (rotateP s r c).pcs.k = mulVec r s.pcs.k ∧
+      (rotateP s r c).pcs.origin = rotate s.pcs.origin r c :=
+  ⟨CS.rotate_i _ r c, CS.rotate_j _ r c, CS.rotate_k _ r h c, rfl⟩
+
+theorem rotateP_good (s : State K) (r : M3 K) (h : Proper r) (c : Option (P3 K))
+    (g : GoodCS s.pcs) : GoodCS (rotateP s r c).pcs := g.rotate r h c
+
+/-- `rotate` keeps the element locations in the PCS: the probe frame stays attached -/
+theorem rotateP_locsPcs (s : State K) (r : M3 K) (h : Proper r) (c : Option (P3 K)) :
+    locsPcs (rotateP s r c) = locsPcs s := by
+  simp only [locsPcs, rotateP, List.map_map]
+  apply List.map_congr_left
+  intro p _
+  exact rotate_fromGcs s.pcs r h c p
+
+/-- `rotate` keeps the element normals in the PCS -/
+theorem rotateP_normalsPcs (s : State K) (r : M3 K) (h : Proper r) (c : Option (P3 K)) :
+    normalsPcs 0 (rotateP s r c) = normalsPcs 0 s := by
+  simp only [normalsPcs, rotateP, List.map_map]
+  apply List.map_congr_left
+  intro p _
+  exact rotate_fromGcs_normal s.pcs r h c p
+
+/-- `rotate` keeps the normals unit vectors -/
+theorem rotateP_unitNormals (s : State K) (r : M3 K) (h : Proper r) (c : Option (P3 K))
+    (u : UnitNormals s) : UnitNormals (rotateP s r c) := by
+  intro n hn
+  simp only [rotateP, List.mem_map] at hn
+  obtain ⟨m, hm, rfl⟩ := hn
+  simp only [rotate, dot_mulVec r h.cols]
+  exact u m hm
+
+/-! ## flip -/
+
+theorem flip_eq (s : State K) (c sn : K) : Probe.flip 0 1 s c sn = rotateP s (rotZ 0 1 c sn) none := rfl
+
+/-- `flip` is a rotation by a proper matrix as soon as `c² + s² = 1`, so everything proved for
+    `rotate` applies -/
+theorem flip_facts (s : State K) (c sn : K) (h : c * c + sn * sn = 1) :
+    Proper (rotZ 0 1 c sn) ∧
+    pairDists (Probe.flip 0 1 s c sn).locs = pairDists s.locs ∧
+    locsPcs (Probe.flip 0 1 s c sn) = locsPcs s ∧
+    normalsPcs 0 (Probe.flip 0 1 s c sn) = normalsPcs 0 s ∧
+    (UnitNormals s → UnitNormals (Probe.flip 0 1 s c sn)) ∧
+    (GoodCS s.pcs → GoodCS (Probe.flip 0 1 s c sn).pcs) :=
+  have hp := rotZ_proper c sn h
+  ⟨hp, rotateP_pairDists s _ hp none, rotateP_locsPcs s _ hp none, rotateP_normalsPcs s _ hp none,
+    rotateP_unitNormals s _ hp none, rotateP_good s _ hp none⟩
+
+/-- in exact arithmetic (`cos π = −1`, `sin π = 0`) the flip negates `x` and `y` -/
+theorem flip_exact (p : P3 K) : rotate p (rotZ 0 1 (-1) 0) none = ⟨-p.x, -p.y, p.z⟩ := by
+  cases p; apply P3.ext' <;> simp only [rotate, mulVec, rotZ, dot] <;> ring
+
+/-! ## set_reference_element -/
+
+section setRef
+variable [Div K] (ofNat : Nat → K)
+
+/-- a successful `setRef` changes nothing but the PCS origin -/
+theorem setRef_some {s s' : State K} {r : Ref} (h : setRef 0 ofNat s r = some s') :
+    s' = { s with pcs := { s.pcs with origin := s'.pcs.origin } } := by
+  simp only [setRef, Option.map_eq_some_iff] at h
+  obtain ⟨o, _, rfl⟩ := h
+  rfl
+
+/-- `setRef`: locations, normals and axes unchanged -/
+theorem setRef_unchanged {s s' : State K} {r : Ref} (h : setRef 0 ofNat s r = some s') :
+    s'.locs = s.locs ∧ s'.normals = s.normals ∧ s'.pcs.i = s.pcs.i ∧ s'.pcs.j = s.pcs.j := by
+  rw [setRef_some ofNat h]; exact ⟨rfl, rfl, rfl, rfl⟩
+
+theorem setRef_normalsPcs {s s' : State K} {r : Ref} (h : setRef 0 ofNat s r = some s') :
+    normalsPcs 0 s' = normalsPcs 0 s := by
+  rw [setRef_some ofNat h]; rfl
+
+/-- `setRef`: all PCS locations move by one common vector, the old PCS coordinates of the new
+    origin -/
+theorem setRef_locsPcs {s s' : State K} {r : Ref} (h : setRef 0 ofNat s r = some s') :
+    locsPcs s' = (locsPcs s).map (fun q => vsub q (s.pcs.fromGcs s'.pcs.origin)) := by
+  rw [setRef_some ofNat h]
+  simp only [locsPcs, List.map_map]
+  apply List.map_congr_left
+  intro p _
+  exact set_reference_shift s.pcs _ p
+
+omit [CommRing K] [Div K] in
+/-- Python indexing returns an element of the list -/
+theorem pyIdx_some {l : List (P3 K)} {k : Int} {o : P3 K} (h : pyIdx l k = some o) :
+    ∃ n : Nat, l[n]? = some o := by
+  unfold pyIdx at h
+  split at h
+  · exact ⟨_, h⟩
+  · split at h
+    · exact ⟨_, h⟩
+    · cases h
+
+/-- for `first`, `last` and an explicit index, the new origin is one of the elements, and that
+    element gets PCS coordinates `0` -/
+theorem setRef_element_origin {s s' : State K} {r : Ref} (hr : r ≠ Ref.mean)
+    (h : setRef 0 ofNat s r = some s') :
+    ∃ n : Nat, s.locs[n]? = some s'.pcs.origin ∧ (locsPcs s')[n]? = some (zero3 : P3 K) := by
+  have hs := setRef_some ofNat h
+  have key : ∃ k, pyIdx s.locs k = some s'.pcs.origin := by
+    simp only [setRef, Option.map_eq_some_iff] at h
+    obtain ⟨o, ho, rfl⟩ := h
+    cases r with
+    | first => exact ⟨_, ho⟩
+    | last => exact ⟨_, ho⟩
+    | mean => exact absurd rfl hr
+    | idx k => exact ⟨_, ho⟩
+  obtain ⟨k, hk⟩ := key
+  obtain ⟨n, hn⟩ := pyIdx_some hk
+  refine ⟨n, hn, ?_⟩
+  have hl : s'.locs = s.locs := (setRef_unchanged ofNat h).1
+  simp only [locsPcs, List.getElem?_map, hl, hn, Option.map_some, set_reference_origin]
+
+/-- for `mean` the new origin is the mean location as computed -/
+theorem setRef_mean_origin {s s' : State K} (h : setRef 0 ofNat s Ref.mean = some s') :
+    s'.pcs.origin = meanLoc 0 ofNat s.locs ∧ s.locs ≠ [] := by
+  simp only [setRef, Option.map_eq_some_iff] at h
+  obtain ⟨o, ho, rfl⟩ := h
+  split at ho
+  · cases ho
+  · rename_i hne
+    simp only [Option.some.injEq] at ho
+    exact ⟨ho.symm, by simpa using hne⟩
+
+end setRef
+
+/-! ## translate_to_point_O -/
+
+theorem toO_eq (s : State K) : toO s = translate s (neg3 s.pcs.origin) := rfl
+
+/-- after `toO` the PCS origin is the global origin -/
+theorem toO_origin (s : State K) : (toO s).pcs.origin = zero3 := vadd_neg3 _
+
+/-! ## reset_position -/
+
+/-- `reset` is a translation followed by a rotation by the (proper) rows-matrix of the frame -/
+theorem reset_eq (s : State K) : reset s = rotateP (toO s) (toO s).pcs.rows none := rfl
+
+theorem reset_proper (s : State K) (g : GoodCS s.pcs) : Proper (toO s).pcs.rows :=
+  rows_proper (translate_good s _ g)
+
+/-- after `reset` the probe frame is the global frame -/
+theorem reset_pcs (s : State K) (g : GoodCS s.pcs) : (reset s).pcs = ⟨zero3, e1, e2⟩ := by
+  have g' : GoodCS (toO s).pcs := translate_good s _ g
+  obtain ⟨hi, hj, _, ho⟩ := rotateP_axes (toO s) _ (reset_proper s g) none
+  rw [← reset_eq] at hi hj ho
+  have ho' : (reset s).pcs.origin = zero3 := by
+    rw [ho, toO_origin]; exact mulVec_zero3 _
+  have hi' : (reset s).pcs.i = e1 := by rw [hi]; exact rows_mulVec_i g'
+  have hj' : (reset s).pcs.j = e2 := by rw [hj]; exact rows_mulVec_j g'
+  cases hp : (reset s).pcs
+  simp only [hp] at ho' hi' hj'
+  simp [ho', hi', hj']
+
+/-- after `reset`, global and probe coordinates coincide -/
+theorem reset_identity (s : State K) (g : GoodCS s.pcs) : locsPcs (reset s) = (reset s).locs := by
+  have h := reset_pcs s g
+  simp only [locsPcs]
+  conv_rhs => rw [← List.map_id (reset s).locs]
+  apply List.map_congr_left
+  intro p _
+  exact fromGcs_std _ (by rw [h]) (by rw [h]) (by rw [h]) p
+
+theorem reset_pairDists (s : State K) (g : GoodCS s.pcs) :
+    pairDists (reset s).locs = pairDists s.locs := by
+  rw [reset_eq, rotateP_pairDists _ _ (reset_proper s g), toO_eq, translate_pairDists]
+
+theorem reset_locsPcs (s : State K) (g : GoodCS s.pcs) : locsPcs (reset s) = locsPcs s := by
+  rw [reset_eq, rotateP_locsPcs _ _ (reset_proper s g), toO_eq, translate_locsPcs]
+
+theorem reset_normalsPcs (s : State K) (g : GoodCS s.pcs) :
+    normalsPcs 0 (reset s) = normalsPcs 0 s := by
+  rw [reset_eq, rotateP_normalsPcs _ _ (reset_proper s g), toO_eq, translate_normalsPcs]
+
+theorem reset_good (s : State K) (g : GoodCS s.pcs) : GoodCS (reset s).pcs :=
+  rotateP_good _ _ (reset_proper s g) none (translate_good s _ g)
+
+theorem reset_unitNormals (s : State K) (g : GoodCS s.pcs) (u : UnitNormals s) :
+    UnitNormals (reset s) :=
+  rotateP_unitNormals (toO s) _ (reset_proper s g) none u
+
+/-- the locations after `reset` are the old PCS locations: `reset` makes the PCS coordinates
+    the global ones -/
+theorem reset_locs (s : State K) (g : GoodCS s.pcs) : (reset s).locs = locsPcs s := by
+  rw [← reset_identity s g, reset_locsPcs s g]
+
+/-! ## points_from_probe -/
+
+/-- every entry of `orientedPoints` carries the probe axes `(î, ĵ, k̂)`, `k̂ = î × ĵ` -/
+theorem orientedPoints_axes (s : State K) :
+    ∀ x ∈ orientedPoints s, x.2 = s.pcs.rows ∧ x.2 = ⟨s.pcs.i, s.pcs.j, cross s.pcs.i s.pcs.j⟩ := by
+  intro x hx
+  simp only [orientedPoints, List.mem_map] at hx
+  obtain ⟨p, _, rfl⟩ := hx
+  exact ⟨rfl, rfl⟩
+
+theorem orientedPoints_locs (s : State K) : (orientedPoints s).map Prod.fst = s.locs := by
+  simp [orientedPoints, List.map_map, Function.comp_def]
+
+/-! ## histories of operations -/
+
+/-- what every reachable state `s` shares with the initial state `s0` -/
+structure Inv0 (s0 s : State K) : Prop where
+  /-- same number of elements -/
+  len : s.locs.length = s0.locs.length
+  /-- the same pairwise squared distances between elements -/
+  dists : pairDists s.locs = pairDists s0.locs
+  /-- the same element normals in the PCS -/
+  normals : normalsPcs 0 s = normalsPcs 0 s0
+  /-- unit normals -/
+  unit : UnitNormals s
+  /-- orthonormal probe frame -/
+  good : GoodCS s.pcs
+  /-- the same element locations in the PCS, up to one common shift vector -/
+  shift : ∃ d, locsPcs s = (locsPcs s0).map (fun q => vsub q d)
+
+/-- the shift clause of `Inv0`, index by index -/
+theorem Inv0.shift_getElem {s0 s : State K} (h : Inv0 s0 s) :
+    ∃ d, ∀ k (hk : k < (locsPcs s).length) (hk0 : k < (locsPcs s0).length),
+      (locsPcs s)[k] = vsub (locsPcs s0)[k] d := by
+  obtain ⟨d, hd⟩ := h.shift
+  refine ⟨d, fun k hk hk0 => ?_⟩
+  simp only [hd, List.getElem_map]
+
+theorem Inv0.refl (s0 : State K) (g : GoodCS s0.pcs) (u : UnitNormals s0) : Inv0 s0 s0 :=
+  ⟨rfl, rfl, rfl, u, g, zero3, by
+    conv_lhs => rw [← List.map_id (locsPcs s0)]
+    exact List.map_congr_left (fun p _ => (vsub_zero3 p).symm)⟩
+
+theorem Inv0.translate {s0 s : State K} (h : Inv0 s0 s) (v : P3 K) : Inv0 s0 (translate s v) :=
+  ⟨by simpa [Probe.translate] using h.len, (translate_pairDists s v).trans h.dists,
+    (translate_normalsPcs s v).trans h.normals, h.unit, translate_good s v h.good,
+    by rw [translate_locsPcs]; exact h.shift⟩
+
+theorem Inv0.rotateP {s0 s : State K} (h : Inv0 s0 s) (r : M3 K) (hr : Proper r)
+    (c : Option (P3 K)) : Inv0 s0 (rotateP s r c) :=
+  ⟨by simpa [Probe.rotateP] using h.len, (rotateP_pairDists s r hr c).trans h.dists,
+    (rotateP_normalsPcs s r hr c).trans h.normals, rotateP_unitNormals s r hr c h.unit,
+    rotateP_good s r hr c h.good, by rw [rotateP_locsPcs s r hr c]; exact h.shift⟩
+
+theorem vsub_vsub (a d e : P3 K) : vsub (vsub a d) e = vsub a (vadd d e) := by
+  cases a; cases d; cases e; apply P3.ext' <;> simp only [vsub, vadd] <;> ring
+
+theorem Inv0.setRef [Div K] (ofNat : Nat → K) {s0 s s' : State K} (h : Inv0 s0 s) {r : Ref}
+    (hs : setRef 0 ofNat s r = some s') : Inv0 s0 s' := by
+  obtain ⟨hl, hn, hi, hj⟩ := setRef_unchanged ofNat hs
+  refine ⟨by rw [hl]; exact h.len, by rw [hl]; exact h.dists,
+    (setRef_normalsPcs ofNat hs).trans h.normals, ?_, ⟨?_, ?_, ?_⟩, ?_⟩
+  · intro n hn'; rw [hn] at hn'; exact h.unit n hn'
+  · rw [hi]; exact h.good.ii
+  · rw [hj]; exact h.good.jj
+  · rw [hi, hj]; exact h.good.ij
+  · obtain ⟨d, hd⟩ := h.shift
+    refine ⟨vadd d (s.pcs.fromGcs s'.pcs.origin), ?_⟩
+    rw [setRef_locsPcs ofNat hs, hd, List.map_map]
+    exact List.map_congr_left (fun p _ => vsub_vsub p d _)
+
+/-- the operations whose rotation argument is a proper rotation -/
+def OpOk : Op K → Prop
+  | .rotate r _ => Proper r
+  | _ => True
+
+section history
+variable [Div K] (ofNat : Nat → K) (cpi spi : K)
+
+/-- every admissible operation preserves the invariant -/
+theorem step_inv (hpi : cpi * cpi + spi * spi = 1) {s0 s s' : State K} (op : Op K)
+    (hop : OpOk op) (h : Inv0 s0 s) (hs : step 0 1 ofNat cpi spi s op = some s') : Inv0 s0 s' := by
+  cases op with
+  | translate v => cases hs; exact h.translate v
+  | rotate r c => cases hs; exact h.rotateP r hop c
+  | flip => cases hs; exact h.rotateP _ (rotZ_proper cpi spi hpi) none
+  | setRef r => exact h.setRef ofNat hs
+  | toO => cases hs; exact h.translate _
+  | reset =>
+    cases hs
+    exact (h.translate _).rotateP _ (reset_proper s h.good) none
+
+/-- running a list of operations (Python exceptions abort the run) -/
+def run (s : State K) : List (Op K) → Option (State K)
+  | [] => some s
+  | op :: ops => (step 0 1 ofNat cpi spi s op).bind (fun s' => run s' ops)
+
+theorem run_eq_foldlM (s : State K) (ops : List (Op K)) :
+    run ofNat cpi spi s ops = ops.foldlM (step 0 1 ofNat cpi spi) s := by
+  induction ops generalizing s with
+  | nil => rfl
+  | cons op ops ih =>
+    simp only [run, List.foldlM_cons, ih]
+    rfl
+
+theorem run_inv (hpi : cpi * cpi + spi * spi = 1) {s0 s s' : State K} (ops : List (Op K))
+    (hops : ∀ op ∈ ops, OpOk op) (h : Inv0 s0 s) (hs : run ofNat cpi spi s ops = some s') :
+    Inv0 s0 s' := by
+  induction ops generalizing s with
+  | nil => cases hs; exact h
+  | cons op ops ih =>
+    simp only [run, Option.bind_eq_some_iff] at hs
+    obtain ⟨s1, h1, h2⟩ := hs
+    exact ih (fun o ho => hops o (List.mem_cons_of_mem _ ho))
+      (step_inv ofNat cpi spi hpi op (hops op List.mem_cons_self) h h1) h2
+
+/-- **history theorem**: whatever admissible operations are applied to a probe with an
+    orthonormal frame and unit normals, element distances, PCS normals, unit normals and the
+    orthonormal frame are kept, and the PCS locations change by a common shift only -/
+theorem history_inv (hpi : cpi * cpi + spi * spi = 1) {s0 s : State K} (g : GoodCS s0.pcs)
+    (u : UnitNormals s0) (ops : List (Op K)) (hops : ∀ op ∈ ops, OpOk op)
+    (hs : run ofNat cpi spi s0 ops = some s) : Inv0 s0 s :=
+  run_inv ofNat cpi spi hpi ops hops (Inv0.refl s0 g u) hs
+
+/-- the operations other than `set_reference_element` -/
+def NotSetRef : Op K → Prop
+  | .setRef _ => False
+  | _ => True
+
+theorem step_locsPcs (hpi : cpi * cpi + spi * spi = 1) {s s' : State K} (op : Op K)
+    (hop : OpOk op) (hn : NotSetRef op) (g : GoodCS s.pcs)
+    (hs : step 0 1 ofNat cpi spi s op = some s') : locsPcs s' = locsPcs s ∧ GoodCS s'.pcs := by
+  cases op with
+  | translate v => cases hs; exact ⟨translate_locsPcs s v, translate_good s v g⟩
+  | rotate r c => cases hs; exact ⟨rotateP_locsPcs s r hop c, rotateP_good s r hop c g⟩
+  | flip =>
+    cases hs
+    exact ⟨rotateP_locsPcs s _ (rotZ_proper cpi spi hpi) none,
+      rotateP_good s _ (rotZ_proper cpi spi hpi) none g⟩
+  | setRef r => exact absurd hn id
+  | toO => cases hs; exact ⟨translate_locsPcs s _, translate_good s _ g⟩
+  | reset => cases hs; exact ⟨reset_locsPcs s g, reset_good s g⟩
+
+/-- without `set_reference_element` in the history the PCS locations never change -/
+theorem history_locs_pcs_fixed (hpi : cpi * cpi + spi * spi = 1) {s0 s : State K}
+    (g : GoodCS s0.pcs) (ops : List (Op K)) (hops : ∀ op ∈ ops, OpOk op)
+    (hn : ∀ op ∈ ops, NotSetRef op) (hs : run ofNat cpi spi s0 ops = some s) :
+    locsPcs s = locsPcs s0 := by
+  induction ops generalizing s0 with
+  | nil => cases hs; rfl
+  | cons op ops ih =>
+    simp only [run, Option.bind_eq_some_iff] at hs
+    obtain ⟨s1, h1, h2⟩ := hs
+    obtain ⟨e, g1⟩ := step_locsPcs ofNat cpi spi hpi op (hops op List.mem_cons_self)
+      (hn op List.mem_cons_self) g h1
+    rw [ih g1 (fun o ho => hops o (List.mem_cons_of_mem _ ho))
+      (fun o ho => hn o (List.mem_cons_of_mem _ ho)) h2, e]
+
+end history
+
+/-! ## make_matrix_probe (over a field of characteristic zero, `ofNat = Nat.cast`) -/
+
+section matrix
+variable {F : Type} [Field F]
+
+
+/-- the mean of the axis values: `(n − 1) pitch / 2` -/
+theorem axis_mean [CharZero F] (n : Nat) (hn : 1 ≤ n) (p : F) :
+    fsum ((List.range n).map (fun (k : Nat) => (k : F) * p)) / ((List.range n).map (fun (k : Nat) => (k : F) * p)).length
+      = (n - 1) * p / 2 := by
+  have h := fsum_range_mul n p
+  have hn' : (n : F) ≠ 0 := by exact_mod_cast (by omega : n ≠ 0)
+  simp only [List.length_map, List.length_range]
+  field_simp
+  linear_combination h
+
+theorem matrixProbe_eq (numx numy : Nat) (px py : F) :
+    matrixProbe 0 Nat.cast numx numy px py =
+      let xs := (List.range numx).map (fun (k : Nat) => (k : F) * px)
+      let ys := (List.range numy).map (fun (k : Nat) => (k : F) * py)
+      ys.flatMap (fun y => xs.map (fun x => (⟨x - fsum xs / xs.length, y - fsum ys / ys.length, 0⟩ : P3 F))) := by
+  simp only [matrixProbe, axis_eq]
+  rfl
+
+theorem matrixProbe_length (numx numy : Nat) (px py : F) :
+    (matrixProbe 0 Nat.cast numx numy px py).length = numx * numy := by
+  rw [matrixProbe_eq]
+  simp only [flatMap_map_length, List.length_map, List.length_range]
+  exact Nat.mul_comm _ _
+
+/-- element `(ix, iy)` of the matrix probe has index `iy * numx + ix` and sits at
+    `(ix pitchX − (numx − 1) pitchX / 2, iy pitchY − (numy − 1) pitchY / 2, 0)` -/
+theorem matrixProbe_getElem [CharZero F] (numx numy : Nat) (px py : F) (ix iy : Nat) (hx : ix < numx)
+    (hy : iy < numy) :
+    (matrixProbe 0 Nat.cast numx numy px py)[iy * numx + ix]? =
+      some ⟨ix * px - (numx - 1) * px / 2, iy * py - (numy - 1) * py / 2, 0⟩ := by
+  rw [matrixProbe_eq]
+  have h := flatMap_map_getElem?' 
+    (fun (y x : F) => (⟨x - (numx - 1) * px / 2, y - (numy - 1) * py / 2, 0⟩ : P3 F))
+    ((List.range numx).map (fun (k : Nat) => (k : F) * px)) ((List.range numy).map (fun (k : Nat) => (k : F) * py))
+    iy ix (by simpa using hy) (by simpa using hx) numx (by simp)
+  simp only [axis_mean numx (by omega) px, axis_mean numy (by omega) py]
+  rw [h]
+  simp
+
+/-- deviations from the mean sum to zero -/
+theorem fsum_sub_mean [CharZero F] (l : List F) :
+    fsum (l.map (fun x => x - fsum l / l.length)) = 0 := by
+  rw [fsum_map_sub_const]
+  cases l with
+  | nil => simp [fsum_nil]
+  | cons a l =>
+    have : ((a :: l).length : F) ≠ 0 := Nat.cast_ne_zero.mpr (by simp)
+    field_simp
+    ring
+
+/-- the coordinates of the matrix probe elements sum to zero: the centroid is the origin -/
+theorem matrixProbe_sum [CharZero F] (numx numy : Nat) (px py : F) :
+    (matrixProbe 0 Nat.cast numx numy px py).foldl vadd ⟨0, 0, 0⟩ = zero3 := by
+  rw [matrixProbe_eq]
+  exact tiled_sum _ _ _ _ (fsum_sub_mean _) (fsum_sub_mean _)
+
+theorem matrixProbe_centroid [CharZero F] (numx numy : Nat) (px py : F) :
+    meanLoc 0 Nat.cast (matrixProbe 0 Nat.cast numx numy px py) = zero3 := by
+  simp only [meanLoc, matrixProbe_sum, zero3, zero_div]
+
+end matrix
+
+/-! ## non-vacuity: concrete rational data -/
+
+section examples
+
+/-- a rational rotation about `Oz` (the 3-4-5 triangle) -/
+def r345 : M3 ℚ := ⟨⟨3/5, -4/5, 0⟩, ⟨4/5, 3/5, 0⟩, ⟨0, 0, 1⟩⟩
+
+/-- a two-element probe, pitch 1 along `x`, looking along `z`, in the global frame -/
+def probe2 : State ℚ :=
+  { locs := [⟨0, 0, 0⟩, ⟨1, 0, 0⟩], normals := [⟨0, 0, 1⟩, ⟨0, 0, 1⟩]
+    pcs := ⟨⟨0, 0, 0⟩, ⟨1, 0, 0⟩, ⟨0, 1, 0⟩⟩ }
+
+example : Proper r345 := by
+  refine Proper.of_rows_det ⟨?_, ?_, ?_, ?_, ?_, ?_⟩ ?_ <;> norm_num [r345, dot, det, cross]
+
+theorem probe2_good : GoodCS probe2.pcs := by
+  constructor <;> norm_num [probe2, dot]
+
+theorem probe2_unit : UnitNormals probe2 := by
+  intro n hn
+  simp only [probe2, List.mem_cons, List.not_mem_nil, or_false, or_self] at hn
+  subst hn; norm_num [dot]
+
+example : (rotateP probe2 r345 (some ⟨1, 2, 3⟩)).locs = [⟨2, 0, 0⟩, ⟨13/5, 4/5, 0⟩] := by
+  norm_num [rotateP, probe2, r345, rotate, mulVec, vadd, vsub, dot]
+
+example : locsPcs (rotateP probe2 r345 (some ⟨1, 2, 3⟩)) = [⟨0, 0, 0⟩, ⟨1, 0, 0⟩] := by
+  norm_num [locsPcs, rotateP, probe2, r345, rotate, CS.rotate, CS.fromGcs, CS.rows, CS.k, M3.transpose,
+    M3.col0, M3.col1, M3.col2, vecMul, mulVec, vadd, vsub, dot, cross]
+
+/-- a history using every kind of operation -/
+def hist : List (Op ℚ) :=
+  [.translate ⟨1, 2, 3⟩, .rotate r345 (some ⟨1, 1, 1⟩), .setRef .last, .flip, .toO, .reset]
+
+theorem r345_proper : Proper r345 := by
+  refine Proper.of_rows_det ⟨?_, ?_, ?_, ?_, ?_, ?_⟩ ?_ <;> norm_num [r345, dot, det, cross]
+
+theorem hist_ok : ∀ op ∈ hist, OpOk op := by
+  intro op h
+  simp only [hist, List.mem_cons, List.not_mem_nil, or_false] at h
+  rcases h with rfl | rfl | rfl | rfl | rfl | rfl <;> first | trivial | exact r345_proper
+
+/-- the run succeeds and ends in the global frame, the last element at the origin -/
+example : run Nat.cast (-1) 0 probe2 hist =
+    some { locs := [⟨-1, 0, 0⟩, ⟨0, 0, 0⟩], normals := [⟨0, 0, 1⟩, ⟨0, 0, 1⟩]
+           pcs := ⟨⟨0, 0, 0⟩, ⟨1, 0, 0⟩, ⟨0, 1, 0⟩⟩ } := by
+  norm_num [run, hist, step, Probe.translate, rotateP, setRef, pyIdx, Probe.flip, toO, reset, neg3, probe2, r345,
+    rotZ, rotate, CS.rotate, CS.translate, CS.rows, CS.k, mulVec, vadd, vsub, dot, cross]
+
+example : ∃ s, run Nat.cast (-1) 0 probe2 hist = some s ∧ Inv0 probe2 s := by
+  have h : (run Nat.cast (-1) 0 probe2 hist).isSome := by
+    norm_num [run, hist, step, setRef, pyIdx, Probe.translate, rotateP, probe2]
+  obtain ⟨s, hs⟩ := Option.isSome_iff_exists.mp h
+  exact ⟨s, hs, history_inv Nat.cast (-1) 0 (by norm_num) probe2_good probe2_unit hist hist_ok hs⟩
+
+/-- `Proper` cannot be dropped: a scaling changes the PCS locations -/
+example : locsPcs (rotateP probe2 ⟨⟨2, 0, 0⟩, ⟨0, 2, 0⟩, ⟨0, 0, 2⟩⟩ none) ≠ locsPcs probe2 := by
+  norm_num [locsPcs, rotateP, probe2, rotate, CS.rotate, CS.fromGcs, CS.rows, CS.k, M3.transpose,
+    M3.col0, M3.col1, M3.col2, vecMul, mulVec, vadd, vsub, dot, cross]
+
+/-- `det = 1` cannot be dropped: the mirror `z ↦ −z` is orthogonal, keeps `î, ĵ` and so keeps
+    `k̂ = î × ĵ`, hence the PCS `z` of an element off the plane changes sign -/
+example :
+    let s : State ℚ := { probe2 with locs := [⟨0, 0, 1⟩] }
+    let m : M3 ℚ := ⟨⟨1, 0, 0⟩, ⟨0, 1, 0⟩, ⟨0, 0, -1⟩⟩
+    Orthonormal m ∧ Orthonormal m.transpose ∧ det m = -1 ∧
+    locsPcs s = [⟨0, 0, 1⟩] ∧ locsPcs (rotateP s m none) = [⟨0, 0, -1⟩] := by
+  refine ⟨⟨?_, ?_, ?_, ?_, ?_, ?_⟩, ⟨?_, ?_, ?_, ?_, ?_, ?_⟩, ?_, ?_, ?_⟩ <;>
+  norm_num [locsPcs, rotateP, probe2, rotate, CS.rotate, CS.fromGcs, CS.rows, CS.k, M3.transpose,
+    M3.col0, M3.col1, M3.col2, vecMul, mulVec, vadd, vsub, dot, cross, det]
+
+/-- a 3 × 2 matrix probe, pitches 2 and 3 -/
+example : matrixProbe (0 : ℚ) Nat.cast 3 2 2 3 =
+    [⟨-2, -3/2, 0⟩, ⟨0, -3/2, 0⟩, ⟨2, -3/2, 0⟩, ⟨-2, 3/2, 0⟩, ⟨0, 3/2, 0⟩, ⟨2, 3/2, 0⟩] := by
+  norm_num [matrixProbe, List.range, List.range.loop]
+
+
+end examples
 
 end Arim.C16
